@@ -490,3 +490,10 @@ PROPS["C13"]["level_text"] += " The detector clauses the step proof relies on ar
 # only its contract): reported under C14 as well, with the receiver-side entry point ClusterState::apply_delta.
 PROPS["C14"]["verus"].append({"unit": U1, "fns": ["NodeState::reset_node", "ClusterState::apply_delta"]})
 PROPS["C14"]["level_text"] += " The wipe itself is carried as a C14 obligation too: NodeState::reset_node leaves no entry, max version 0 and exactly the announced GC watermark (NodeState::apply_delta is checked against that contract, not its body), and ClusterState::apply_delta routes every member delta through NodeState::apply_delta."
+# C03's anchor "per-member grouping of ops on decode (no op without preceding member header, no duplicate
+# member)" is delta.rs:372-421: DeltaBuilder::{apply_op, flush} were carried already, the decoder loop of
+# Delta::deserialize (result well-formed or an error, for every byte string) was carried by C04 only.
+# DeltaBuilder::finish is deliberately NOT a C03 obligation: its exact-content clause would also fail for a
+# change that merely drops a member delta, which loses progress but invents nothing (not a C03 break).
+PROPS["C03"]["verus"].append({"unit": U2, "fns": ["delta_deserialize"]})
+PROPS["C03"]["level_text"] += " The decode-side grouping is carried by the decoder loop of Delta::deserialize as well: whatever bytes arrive, the result is a well-formed delta (no op without a preceding member header, no duplicate member) or an error."
